@@ -8,26 +8,44 @@ TECH = "bounded symbolic execution of the real go/ssa (own executor) into SMT-LI
 NOTE = "trusted: go/ssa lowering + executor semantics (validated per run by native replay of every reported model and by the concrete-vector self-test T00), solver answers (unknown/timeout never counts as success), Go toolchain and stdlib; "
 
 claimed = {
- "C01": ("verify/VerifyWithOptions inlined (length check, S<L via scMinimal, decode, small-order gates, hash input as a byte sequence, final comparison); cut callees are uninterpreted functions, so equality with the documented predicate is proved for all key/signature bytes, all messages and every interpretation of the cut callees; signature lengths are case-split",
-         "the meaning of the cut callees (decode, [8], neutral test, double-base mult, reduction mod L) is the subject of C09/C10/C16/C19; SHA-512 is an uninterpreted function of its input sequence"),
- "C02": ("NewKeyFromSeed/GenerateKey/Sign/PrivateKey.Sign inlined; equality with the RFC 8032 5.1.5/5.1.6 formulas over the same cut symbols for all seeds, keys, messages (opaque), contexts (opaque, length 1..255) and all six ways of passing options; entropy reader modelled by contract and shown never to be read",
-         "scalar and group leaves (reduction, mul/add mod L, fixed-base mult, Pack) are uninterpreted here (C16/C19/C10); [a mod L]B = [a]B relies on B having order L"),
- "C04": ("scMinimal executed symbolically on all 2^256 scalar strings against LE256(s) < L (bit-vector, no bound); the verifier skeletons share the obligation",
-         "none beyond the common base for the scMinimal obligation"),
- "C05": ("same encoding as C01 with the ZIP-215 flag symbolic: verdict equals the predicate selected by the flag; default acceptance implies ZIP-215 acceptance",
+ "C01": ("verify/VerifyWithOptions inlined (length check, S<L via scMinimal, decode, small-order gates, hash input as a byte sequence, final comparison); cut callees are uninterpreted functions, so equality with the documented predicate is proved for all key/signature bytes, all messages and every interpretation of the cut callees; signature lengths and context lengths (opaque 1..255, and concrete 1 / 255 bytes) are case-split; the leaf properties the cut contracts rest on (C09, C10, C16, C18, C19) are re-run as part of the check",
+         "SHA-512 is an uninterpreted function of its input sequence; trusted mathematics: structure of E(F_p), completeness of the addition law"),
+ "C02": ("NewKeyFromSeed/GenerateKey/Sign/PrivateKey.Sign inlined; equality with the RFC 8032 5.1.5/5.1.6 formulas over the same cut symbols for all seeds, keys, messages (opaque), contexts and all six ways of passing options; entropy reader modelled by contract and shown never to be read; leaf properties C10, C16, C18, C19 re-run",
+         "[a mod L]B = [a]B relies on B having order L"),
+ "C03": ("arithmetic lemmas in Z/8L (group equation for S = (r + h a) mod L, clamped scalar never 0 mod L, [8][r]B = O iff r = 0), batch membership for lengths 3, 7 and 68, plus the C01/C02/C05 skeletons and the leaf suites re-run; the monolithic sign-then-verify composition over integer-interpreted cuts runs in the thorough tier",
+         "composition argument: C02 (what Sign computes) + lemmas + C01/C05/C06 (what the verifiers accept); E(F_p) cyclic of order 8L with B of order L is trusted; the nonce-is-zero case is excluded as in the property"),
+ "C04": ("scMinimal executed symbolically on all 2^256 scalar strings against LE256(s) < L (no bound); every single-signature mode and the batch path reject S >= L for all other inputs; S in [2^252, L) treated like any S; uniqueness lemma in Z/8L",
+         "none beyond the common base for the scMinimal obligation; batch clause under assumption A1 of C06"),
+ "C05": ("same encoding as C01 with the ZIP-215 flag symbolic: verdict equals the predicate selected by the flag for all variants; default acceptance implies ZIP-215 acceptance; the batch path gates both small-order checks with the flag",
          "as C01"),
- "C06": ("VerifyBatch inlined with all its closures, chunk loop, early exits and the per-signature fallback; per-entry results equal the documented single-verification predicate of each entry, summary = conjunction, one result per entry, no panic, error only for entropy failure; entries fully symbolic, one malformed entry (6 kinds) at first/middle/last position; batch lengths quick {0..6,8,9}, thorough up to 131 (0, 1 and 2 full chunks +/- remainders)",
-         "assumption A1 (batch equation over the documented points/scalars holds iff every entry's own cofactored equation holds: layer-2 algebra, exact multi-scalar multiplication C17, and the 2^-120 probabilistic soundness of random linear combination, which is not a property of the code); A2: decodability is independent of the sign bit (C10); cut callees as in C01"),
- "C07": ("writeDom2 executed against a recording hash stub: emitted bytes = prefix||flag||len||ctx for all contexts (opaque content, every length) ; injectivity / prefix-freeness of (flag, ctx) -> hash input decided in the sequence theory; the dom2 prefix string run through the real decoder concretely (not a point); context / digest-length / hash-selector refusal contract of Sign, VerifyWithOptions and VerifyBatch for symbolic lengths and selectors",
+ "C06": ("VerifyBatch inlined with all its closures, chunk loop, early exits and the per-signature fallback; per-entry results equal the documented single-verification predicate of each entry, summary = conjunction, one result per entry, no panic, error only for entropy failure; entries fully symbolic, one malformed entry (8 kinds) at first/middle/last position; batch lengths quick {0..6,8,9} fully symbolic and {68,70,131} with the first chunk(s) replicated, thorough up to 131 fully symbolic; the in-place multi-scalar multiplication is modelled as clobbering its arrays",
+         "assumption A1 (the batch equation over the documented points/scalars holds iff every entry's own cofactored equation holds: batch algebra, exact multi-scalar multiplication (C17) and the 2^-120 probabilistic soundness of random linear combination, which is not a property of the code); A2: decodability is independent of the sign bit (C10)"),
+ "C07": ("writeDom2 executed against a recording hash stub: emitted bytes = prefix||flag||len||ctx for opaque contexts of every length and for concrete 0/1/2/254/255-byte contexts; injectivity / prefix-freeness of (flag, ctx) -> hash input decided in the sequence theory; the dom2 prefix string run through the real decoder concretely (not a point); context / digest-length / hash-selector refusal contract of Sign, VerifyWithOptions and VerifyBatch for symbolic lengths and selectors",
          "hash-input separation is the code's share of the statement; 'never accepted under a different pair' additionally needs SHA-512 to behave as a random oracle and excludes ZIP-215 with a small-order key"),
- "C13": ("every exported entry point (Verify, VerifyWithOptions, Sign, PrivateKey.Sign, NewKeyFromSeed, VerifyBatch, X25519) executed with argument lengths case-split over {0,31,32,33,63,64,65,80,...}, nil slices, spare capacity, symbolic contents, hash selector and context length symbolic; panic condition == documented condition; the store log contains no caller-supplied object",
+ "C08": ("every leaf suite re-run per build configuration (C18/C19 on both layouts and with 32-bit int; the group-law, decoding, small-order and selector suites C09/C10/C16 in all six configurations: default with the translated assembly selector, noasm, force32bit, appengine, force32bit+appengine, GOARCH=386); the constant-time selector of each configuration proved equal to the table rows for every digit; one concrete key-generation / decode / double-scalar-multiplication vector executed through the real code of every configuration",
+         "two configurations are observationally identical because each satisfies the same value-level contracts and outputs are canonical byte strings; compiler/assembler correctness and real 32-bit hardware are outside"),
+ "C09": ("CofactorMultiply = [8] (three doublings over the group-abstract model), IsNeutralVartime <=> X = 0 and Y = Z mod p for every in-class representation, CofactorEqual = IsNeutral([8](P-Q)), geSub / ProjectiveToExtended against the Edwards law; the real small-order test run concretely on all 14 torsion encodings (refused) and on [k]B + T for k in {1,2,L-1} and all eight T (not refused); the batch call sites (n = 5, 68)",
+         "'[8]P = O iff P is one of eight points' and completeness of the addition law are trusted group theory"),
+ "C10": ("UnpackNegativeVartime / UnpackVartime under the field-abstract model with each decoder path explored separately: accept => genuine root with the requested parity, Y = y, Z = 1, T = XY, input not modified; Pack = canonical y and parity of the canonical x; exponent tracking through the real Recip / PowTwo252m3 chains (z^(p-2), z^((p-5)/8)); C18 re-run",
+         "'a root exists => one of the two tests passes' (p = 5 mod 8) and Fermat inversion are trusted; the reject direction is by construction of the decoder's own tests"),
+ "C11": ("x25519(): pointer-identity fast path, generic path = ladder (uninterpreted), error and no output exactly for an all-zero result; ScalarBaseMult: clamp exact, raw expansion without reduction, scalar < 2^255, u = canonical((Y+Z)/(Z-Y)) incl. Z = Y; the exported base point constant; leaf suites C16, C18, C19 re-run",
+         "the generic ladder is golang.org/x/crypto (external code, assumed RFC 7748); the Edwards-Montgomery map being a group isomorphism is trusted"),
+ "C12": ("EdPrivateKeyToX25519 = clamp(SHA-512(seed)[:32]) in a fresh slice; EdPublicKeyToX25519 fails exactly for undecodable keys, returns canonical((1+y)/(1-y)) and 0 at y = 1 (both cases explored); commutation identity (Y+Z)/(Z-Y) = (1+y)/(1-y) for y = Y/Z",
+         "decoding itself is C10; inverse-pair rewriting z*w = 1 (mod p) is applied only under 'mod p'"),
+ "C13": ("every exported entry point executed with argument lengths case-split over {0,31,32,33,63,64,65,80,...}, nil slices, spare capacity, symbolic contents, hash selector and context length symbolic; panic condition == documented condition; VerifyBatch with every kind of malformed entry and mismatched counts never panics; the store log contains no caller-supplied object",
          "heavy callees cut as in C01/C02 with their own length preconditions asserted at the call site; the generic X25519 ladder is external code (uninterpreted)"),
- "C14": ("GenerateKey/Public/Seed/Equal executed symbolically: exactly one 32-byte ReadFull, error => no key, result = NewKeyFromSeed(bytes read), accessors return fresh objects (object identity in the memory model), Equal <=> same type, same length, all bytes equal, for all 64-byte contents and several lengths",
-         "NewKeyFromSeed's own correctness is C02; reader modelled by the io.ReadFull contract"),
- "C18": ("every field function of both limb layouts (Add, AddAfterBasic, AddReduce, Sub, SubAfterBasic, SubReduce, Neg, Mul, Square, SquareTimes step, Expand, Contract, SwapConditional, Copy) executed symbolically for all limbs inside the stated input class; the bit-vector terms are lifted to integer arithmetic in a linear normal form (every no-wrap decision is a solver-discharged side condition) and the exact residue and the output limb bounds are proved",
-         "input classes: limbs below 2^(bits+3) (64-bit Mul/Square: 2^54) resp. 2^(bits+1) for the 32-bit Mul/Square; Recip / PowTwo252m3 chains are covered through C10"),
- "C19": ("reduce, Add, Expand (16 and 32 bytes), ExpandRaw/Contract round trip and the signed radix-16 recoding (per-digit relation on the real output for all scalars below 2^255 + telescoping induction) on both limb layouts",
-         "Expand(64 bytes), Mul and barrettReduce: monolithic obligations run in the thorough tier only and are reported undischarged if the solvers do not finish; sliding-window recodings: see C16"),
+ "C14": ("GenerateKey/Public/Seed/Equal executed symbolically: exactly one 32-byte io.ReadFull (a bare Read is modelled as delivering any count), error => no key, result = NewKeyFromSeed(bytes read), accessors return fresh objects (object identity in the memory model), Equal <=> same type, same length, all bytes equal",
+         "NewKeyFromSeed's own correctness is C02; reader modelled by the io.ReadFull / io.Reader contracts"),
+ "C15": ("frame condition: sequences of exported calls (verify, sign, key derivation, three batches, X25519 base/generic) executed on symbolic inputs; the store log contains no caller-supplied or package-level object (every store the executor sees to such an object is an obligation), results of a call are unchanged by earlier calls",
+         "interleavings are not enumerated: disjoint write sets and read-only shared state imply race freedom under the Go memory model; crypto/rand.Reader and sha512 objects are assumed goroutine-safe / call-local"),
+ "C16": ("group law under the field-abstract model on both layouts (Add, Double, doublePartial, nielsAdd2, pnielsAdd, both vartime mixed additions with both signs, fullToPniels, conversions) as polynomial congruences against the Edwards law, every field call site checked against the class C18 proves; curve constants; selector of every configuration (C08); sliding-window recoding (8/14 symbolic bits at six offsets, windows 5 and 7) and radix-16 recoding (C19)",
+         "the algorithm level of ScalarmultBaseNiels / DoubleScalarmultVartime (composition of the proven steps over symbolic digit strings) is not yet discharged: see DESIGN.md"),
+ "C17": ("heap operations from an arbitrary scalar state (heapUpdatedRoot, heapInsertNext, heapGetTop2 for heap sizes 3..9, three fixed index permutations, all limb sizes), the final double-and-add = [s]P for symbolic scalars across limb boundaries, an all-valid batch never reaches the per-signature fallback (n = 4, 5, 68)",
+         "one Bos-Coster loop iteration as a unit and the termination measure are argued from the proven pieces (DESIGN.md); the probability that the loop ends before the 128-bit scalars are inserted is outside"),
+ "C18": ("every field function of both limb layouts (Add, AddAfterBasic, AddReduce, Sub, SubAfterBasic, SubReduce, Neg, Mul, Square, SquareTimes step, Expand, Contract, SwapConditional, Copy) for all limbs inside the operand classes the group law produces; bit-vector terms are lifted to integer arithmetic in a linear normal form (every no-wrap decision is a solver-discharged side condition); exact residue and output limb bounds",
+         "operand classes are per-limb bound vectors checked call site by call site in the C09/C10/C16 harnesses; Recip / PowTwo252m3 chains are covered by exponent tracking in C10"),
+ "C19": ("reduce, Add, Expand (16 and 32 bytes), ExpandRaw/Contract round trip, the signed radix-16 recoding (per-digit relation on the real output for all scalars below 2^255 + telescoping induction) and the sliding-window recodings (bounded placements) on both limb layouts",
+         "Expand(64 bytes), Mul and barrettReduce: monolithic obligations run in the thorough tier only and are reported undischarged if the solvers do not finish"),
  "C20": ("key generation, signing (3 variants), X25519 base-point path, private-key conversion and comparison executed symbolically down to the limb code and the translated assembly selector with secret inputs tainted; every branch condition, memory index, shift amount, division operand and variable-time primitive operand is checked for dependence on a secret symbol",
          "instruction-level timing and the stdlib (SHA-512, subtle) are assumed constant-time; taint is syntactic over simplified terms (a semantically public term that mentions a secret would be flagged, never the converse)"),
 }
@@ -53,6 +71,6 @@ for p in props:
             "level_note": NOTE + note,
             "technique": TECH})
     else:
-        m["not_applicable"].append({"property_id": p, "reason": "check not built yet in this revision (work in progress; see DESIGN.md §8 build order)"})
+        m["not_applicable"].append({"property_id": p, "reason": "check not built yet in this revision"})
 json.dump(m, open(os.path.join(here, 'MANIFEST.json'), 'w'), indent=1)
 print("claimed:", sorted(claimed))
